@@ -50,10 +50,11 @@ const (
 	ctorStdBytesReader   // *bytes.Reader: no Bytes(), but Len()/Size()/Seek()/ReadAt()/WriteTo()
 	ctorStdStringsReader // *strings.Reader
 	ctorStdSection       // *io.SectionReader
+	ctorBufReaderPlain   // buffer.Reader behind a plain io.Reader (its Bytes() hidden), possibly partly consumed
 	nCtors
 )
 
-var ctorNames = [...]string{"Bytes(cap==len)", "Bytes(cap==len+1)", "Bytes(spare)", "String", "Reader(sim)", "Reader(own Bytes())", "Reader(buffer.Reader)", "Reader(bytes.Buffer)", "Reader(nil)", "Reader(bytes.Reader)", "Reader(strings.Reader)", "Reader(io.SectionReader)"}
+var ctorNames = [...]string{"Bytes(cap==len)", "Bytes(cap==len+1)", "Bytes(spare)", "String", "Reader(sim)", "Reader(own Bytes())", "Reader(buffer.Reader)", "Reader(bytes.Buffer)", "Reader(nil)", "Reader(bytes.Reader)", "Reader(strings.Reader)", "Reader(io.SectionReader)", "Reader(buffer.Reader as plain io.Reader)"}
 
 const (
 	o12Peek = iota
@@ -334,6 +335,33 @@ func RunC12(ctx *core.Ctx) *core.Violation {
 			ctx.Count("probe_sized_reader_partially_consumed")
 		}
 		m.z = mkR(sr)
+		m.data = data
+		n = len(data)
+		m.n = n
+	case ctorBufReaderPlain:
+		// The library's own byte-slice reader used as an ordinary io.Reader: the caller may have read
+		// part of it already (in pieces), may have rewound it and read again; the Input ranges over
+		// what such a reader delivers from then on, the unread remainder.
+		rb := buffer.NewReader(data)
+		k := 0
+		for round := 0; round < 2 && n > 0 && t.Chance(2, 3); round++ {
+			if round == 1 {
+				rb.Reset()
+				k = 0
+			}
+			want := t.Draw(n + 1)
+			for k < want {
+				p := make([]byte, 1+t.Draw(want-k+2))
+				got, err := rb.Read(p)
+				if got < 1 || got > len(p) || err != nil || !eq(p[:got], data[k:k+min(got, n-k)]) {
+					return m.viol("reader-delivers-wrong", "buffer.Reader over %d bytes, %d already read: Read(len %d) = %d, %v %q", n, k, len(p), got, err, clip(p[:max(got, 0)]))
+				}
+				k += got
+			}
+			ctx.Count("probe_buffer_reader_partially_consumed")
+		}
+		m.z = mkR(struct{ io.Reader }{rb})
+		data = data[k:]
 		m.data = data
 		n = len(data)
 		m.n = n
